@@ -113,3 +113,39 @@ M('C16', 'example-if-let-err-equiv', EX, '        Self::validate_message(&env, &
   '        if let Err(err) = Self::validate_message(&env, &source_chain, &message_id, &source_address, &payload) {\n            panic_with_error!(env, err);\n        }', equiv=True)
 M('C16', 'example-expect-equiv', EX, '        Self::validate_message(&env, &source_chain, &message_id, &source_address, &payload)\n            .unwrap_or_else(|err| panic_with_error!(env, err));',
   '        Self::validate_message(&env, &source_chain, &message_id, &source_address, &payload).expect("not approved");', equiv=True)
+
+# ---------------- C02 ----------------
+M('C02', 'reapprove-executed', GW, '            if message_approval != MessageApprovalValue::NotApproved {\n                continue;\n            }',
+  '            if matches!(message_approval, MessageApprovalValue::Approved(_)) {\n                continue;\n            }', 'C02.R2')
+M('C02', 'approve-no-replay-guard', GW, '            if message_approval != MessageApprovalValue::NotApproved {\n                continue;\n            }\n', '            let _ = message_approval;\n', 'C02.R2')
+M('C02', 'approve-key-swapped-fields', GW, '            let key = MessageApprovalKey {\n                source_chain: message.source_chain.clone(),\n                message_id: message.message_id.clone(),\n            };',
+  '            let key = MessageApprovalKey {\n                source_chain: message.message_id.clone(),\n                message_id: message.source_chain.clone(),\n            };', 'C02.R2')
+M('C02', 'validate-hash-ignores-caller', GW, '            source_address,\n            contract_address: caller,\n            payload_hash,\n        };\n\n        if message_approval == Self::message_approval_hash(&env, message.clone()) {',
+  '            source_address,\n            contract_address: caller,\n            payload_hash,\n        };\n\n        if matches!(message_approval, MessageApprovalValue::Approved(_)) {', 'C02.R3')
+M('C02', 'validate-no-mark-executed', GW, '            env.storage().persistent().set(\n                &DataKey::MessageApproval(key),\n                &MessageApprovalValue::Executed,\n            );\n\n            event::execute_message', '            let _ = key;\n            event::execute_message', 'C02')
+M('C02', 'validate-marks-notapproved', GW, '                &DataKey::MessageApproval(key),\n                &MessageApprovalValue::Executed,', '                &DataKey::MessageApproval(key),\n                &MessageApprovalValue::NotApproved,', 'C02.R1')
+M('C02', 'is_executed-reports-approved', GW, '        message_approval == MessageApprovalValue::Executed\n', '        message_approval != MessageApprovalValue::NotApproved\n', 'C02.R4')
+M('C02', 'is_approved-ignores-payload', GW, '                    contract_address,\n                    payload_hash,\n                },\n            )\n    }',
+  '                    contract_address,\n                    payload_hash: BytesN::from_array(&env, &[0; 32]),\n                },\n            )\n    }', 'C02.R4')
+M('C02', 'validate-wrong-key', GW, '        let key = MessageApprovalKey {\n            source_chain: source_chain.clone(),\n            message_id: message_id.clone(),\n        };\n        let message_approval = Self::message_approval_by_key(&env, key.clone());\n        let message = Message {',
+  '        let key = MessageApprovalKey {\n            source_chain: source_chain.clone(),\n            message_id: source_address.clone(),\n        };\n        let message_approval = Self::message_approval_by_key(&env, key.clone());\n        let message = Message {', 'C02.R3')
+M('C02', 'approve-if-eq-equiv', GW, '            if message_approval != MessageApprovalValue::NotApproved {\n                continue;\n            }\n\n            env.storage().persistent().set(\n                &DataKey::MessageApproval(key),\n                &Self::message_approval_hash(&env, message.clone()),\n            );\n\n            event::approve_message(&env, message);',
+  '            if message_approval == MessageApprovalValue::NotApproved {\n                env.storage().persistent().set(\n                    &DataKey::MessageApproval(key),\n                    &Self::message_approval_hash(&env, message.clone()),\n                );\n\n                event::approve_message(&env, message);\n            }', equiv=True)
+
+# ---------------- C01 ----------------
+TYPES = 'contracts/axelar-gateway/src/types.rs'
+M('C01', 'no-retention-check', AUTH, '    ensure!(\n        current_epoch - signers_epoch <= previous_signers_retention,\n        ContractError::OutdatedSigners\n    );\n', '    let _ = previous_signers_retention;\n', 'C01.R1')
+M('C01', 'digest-without-domain', AUTH, '    let mut msg: Bytes = domain_separator.into();\n    msg.extend_from_array(&signers_hash.to_array());', '    let _ = domain_separator;\n    let mut msg: Bytes = signers_hash.into();', 'C01.R3')
+M('C01', 'digest-without-signers-hash', AUTH, '    msg.extend_from_array(&signers_hash.to_array());\n', '    let _ = signers_hash;\n', 'C01.R3')
+M('C01', 'digest-without-data-hash', AUTH, '    msg.extend_from_array(&data_hash.to_array());\n', '', 'C01.R3')
+M('C01', 'threshold-gt', AUTH, '            if total_weight >= proof.threshold {\n                return true;', '            if total_weight > proof.threshold {\n                return true;', 'C01.R1')
+M('C01', 'weight-before-verify-unsigned-counted', AUTH, '        if let ProofSignature::Signed(signature) = signature {\n            env.crypto()\n                .ed25519_verify(&public_key, msg_hash.to_bytes().as_ref(), &signature);\n\n            total_weight = total_weight.checked_add(weight).unwrap();\n',
+  '        total_weight = total_weight.checked_add(weight).unwrap();\n        if let ProofSignature::Signed(signature) = signature {\n            env.crypto()\n                .ed25519_verify(&public_key, msg_hash.to_bytes().as_ref(), &signature);\n', 'C01.R3')
+M('C01', 'approve-without-proof', GW, '        auth::validate_proof(&env, &data_hash, proof)?;\n\n        ensure!(!messages.is_empty()', '        let _ = auth::validate_proof(&env, &data_hash, proof);\n\n        ensure!(!messages.is_empty()', 'C01.R1')
+M('C01', 'approve-hash-wrong-command', GW, '.keccak256(&(CommandType::ApproveMessages, messages.clone()).to_xdr(&env))', '.keccak256(&(CommandType::RotateSigners, messages.clone()).to_xdr(&env))', 'C01.R3')
+M('C01', 'approve-hash-no-command', GW, '.keccak256(&(CommandType::ApproveMessages, messages.clone()).to_xdr(&env))', '.keccak256(&messages.clone().to_xdr(&env))', 'C01.R3')
+M('C01', 'proof-threshold-not-hashed', TYPES, '            threshold: self.threshold,\n            nonce: self.nonce.clone(),\n        }\n    }\n}', '            threshold: 1,\n            nonce: self.nonce.clone(),\n        }\n    }\n}', 'C01')
+M('C01', 'verify-wrong-key', AUTH, '.ed25519_verify(&public_key, msg_hash.to_bytes().as_ref(), &signature);', '.ed25519_verify(&proof.signers.get(0).unwrap().signer.signer, msg_hash.to_bytes().as_ref(), &signature);', 'C01.R3')
+M('C01', 'empty-messages-allowed', GW, '        ensure!(!messages.is_empty(), ContractError::EmptyMessages);\n', '', 'C01.R1')
+M('C01', 'validate_proof-threshold-from-weight-sum-saturating', AUTH, '            total_weight = total_weight.checked_add(weight).unwrap();', '            total_weight = total_weight.saturating_add(weight);', 'C01')
+M('C01', 'sig-loop-while-equiv', AUTH, '            if total_weight >= proof.threshold {\n                return true;\n            }', '            if proof.threshold <= total_weight {\n                return true;\n            }', equiv=True)
